@@ -43,6 +43,7 @@ static struct {
 	nsync_once *once[2]; int runs[2], done[2], running[2];
 	/* notes */
 	nsync_note note[MAXOBJ]; int nnotes; int freed[MAXOBJ]; int notify_called[MAXOBJ]; int parent_of[MAXOBJ]; int dl_of[MAXOBJ];
+	char *nwbase[RT_MAXT]; int wobjs[RT_MAXT][8]; int nwobjs[RT_MAXT]; int nwheap[RT_MAXT]; int nwinit[RT_MAXT];
 	int seen_notified[MAXOBJ]; int called[MAXOBJ]; int lpar[MAXOBJ]; int pending_new[RT_MAXT];
 	int ideal;
 	int *cells;          /* client data for the happens-before oracle (C03), one cell per thread */
@@ -80,12 +81,13 @@ static void client (void *arg) {
 		if (S.nwrec[t]) {
 			/* the wait that owned this on-stack record has returned: nobody may touch it any more (C13) */
 			rt_dead_clear (t);
-			rt_dead_mark ((char *) S.nwrec[t] - offsetof (struct nsync_waiter_s, waiting), sizeof (struct nsync_waiter_s), t, "nsync_wait_n record");
+			if (S.kind == K_NOTE && S.nwbase[t]) { if (!S.nwheap[t]) rt_dead_mark (S.nwbase[t], sizeof (struct nsync_waiter_s) * (size_t) (S.nwobjs[t] ? S.nwobjs[t] : 1), t, "nsync_wait_n record"); }
+			else rt_dead_mark ((char *) S.nwrec[t] - offsetof (struct nsync_waiter_s, waiting), sizeof (struct nsync_waiter_s), t, "nsync_wait_n record");
 		}
 		S.nwrec[t] = NULL;
 		if (ip >= S.nops[t]) break;
 		o = &S.prog[t][ip];
-		if (!strcmp (o->name, "wait")) rt_dead_clear (t);      /* a new wait may reuse the same stack bytes */
+		if (!strcmp (o->name, "wait") || !strcmp (o->name, "waitn")) rt_dead_clear (t);      /* a new wait may reuse the same stack bytes */
 		if (S.kind == K_COUNTER) {
 			if (!strcmp (o->name, "add")) {
 				uint32_t r;
@@ -138,7 +140,9 @@ static void client (void *arg) {
 				S.seen_notified[a] = 1;
 				S.ret[t] = 1;
 			} else if (!strcmp (o->name, "poll") || !strcmp (o->name, "wait")) {
-				int r = !strcmp (o->name, "poll") ? nsync_note_is_notified (S.note[a]) : nsync_note_wait (S.note[a], deadline (o->dl));
+				int r;
+				if (!strcmp (o->name, "wait")) { S.wobjs[t][0] = a; S.nwobjs[t] = 1; S.nwbase[t] = NULL; S.nwinit[t] = 0; }
+				r = !strcmp (o->name, "poll") ? nsync_note_is_notified (S.note[a]) : nsync_note_wait (S.note[a], deadline (o->dl));
 				if (r) {
 					int x = a, k, cause = 0;
 					for (k = 0; k < MAXOBJ && x != 0; k++, x = S.lpar[x]) if (S.called[x] || expired (S.dl_of[x])) cause = 1;
@@ -148,6 +152,22 @@ static void client (void *arg) {
 				} else {
 					if (S.seen_notified[a]) rt_violation ("O-lin", "note %d observed un-notified after it had been observed notified", a);
 					if (!strcmp (o->name, "wait") && !expired (o->dl)) rt_violation ("O-ret", "nsync_note_wait(note %d) timed out at clock %ld before its deadline %d", a, (long) (rt_now () - RT_T0), o->dl);
+				}
+				S.ret[t] = r;
+			} else if (!strcmp (o->name, "waitn")) {
+				/* nsync_wait_n (NULL, .., dl, count, notes given by the digits of a): both the on-stack (count <= 4) and the heap path */
+				struct nsync_waitable_s w[8], *pw[8]; int cnt = 0, d, r, div = 1, k;
+				for (d = o->a; d >= 10; d /= 10) div *= 10;
+				for (d = o->a; div > 0; div /= 10) { int id = (d / div) % 10; S.wobjs[t][cnt] = id; w[cnt].v = S.note[id]; w[cnt].funcs = &nsync_note_waitable_funcs; pw[cnt] = &w[cnt]; cnt++; }
+				S.nwobjs[t] = cnt; S.nwbase[t] = NULL; S.nwinit[t] = 0;
+				r = nsync_wait_n (NULL, NULL, NULL, deadline (o->dl), cnt, pw);
+				if (r < cnt) {
+					int id = S.wobjs[t][r], x = id, cause = 0;
+					for (k = 0; k < MAXOBJ && x != 0; k++, x = S.lpar[x]) if (S.called[x] || expired (S.dl_of[x])) cause = 1;
+					if (!cause) rt_violation ("O-ret", "nsync_wait_n returned index %d (note %d) but that note has no reason to be notified", r, id);
+					S.seen_notified[id] = 1;
+				} else {
+					if (!expired (o->dl)) rt_violation ("O-ret", "nsync_wait_n returned count (timeout) at clock %ld before its deadline %d", (long) (rt_now () - RT_T0), o->dl);
 				}
 				S.ret[t] = r;
 			} else if (!strcmp (o->name, "free")) {
@@ -239,6 +259,7 @@ static size_t put_owner_list (char *buf, size_t n, nsync_dll_list_ list) {
 	o += (size_t) snprintf (buf + o, n - o, "[");
 	for (p = nsync_dll_first_ (list); p != NULL && k < 16; p = nsync_dll_next_ (list, p), k++) {
 		int ow = rt_stack_owner (p->container);
+		if (ow < 0) ow = rt_block_owner (p->container);      /* heap records of a 5-object nsync_wait_n */
 		o += (size_t) snprintf (buf + o, n - o, "%s%d", k ? "," : "", ow >= 0 ? ow + 1 : 99);
 	}
 	o += (size_t) snprintf (buf + o, n - o, "]");
@@ -298,7 +319,18 @@ static void obs (char *buf, size_t n) {
 		o += (size_t) snprintf (buf + o, n - o, "]");
 		NARR ("disc", LIVE (k) ? S.note[k]->disconnecting : 0);
 		NARR ("lk", LIVE (k) && rt_ideal_holder ? rt_ideal_holder (&S.note[k]->note_mu) : 0);
-		PUTARR ("nww", S.nwrec[i] ? *(volatile uint32_t *) S.nwrec[i] : 0);
+		o += (size_t) snprintf (buf + o, n - o, " nww=[");
+		for (i = 0; i < S.n; i++) {
+			o += (size_t) snprintf (buf + o, n - o, "%s[", i ? "," : "");
+			for (k = 1; k <= S.nnotes; k++) {
+				int j, v = 0;
+				/* the record of thread i for note k, if its call is in progress and has reached it */
+				if (S.nwbase[i] && S.nwrec[i] && !(S.nwheap[i] && rt_is_freed (S.nwbase[i]))) for (j = 0; j < S.nwobjs[i] && j < S.nwinit[i]; j++) if (S.wobjs[i][j] == k) v = (int) *(volatile uint32_t *) (S.nwbase[i] + sizeof (struct nsync_waiter_s) * (size_t) j + offsetof (struct nsync_waiter_s, waiting));
+				o += (size_t) snprintf (buf + o, n - o, "%s%d", k > 1 ? "," : "", v);
+			}
+			o += (size_t) snprintf (buf + o, n - o, "]");
+		}
+		o += (size_t) snprintf (buf + o, n - o, "]");
 		PUTARR ("sem", sem_of (i));
 		o += (size_t) snprintf (buf + o, n - o, " now=%ld", (long) (rt_now () - RT_T0));
 		PUTARR ("ret", S.ret[i]);
@@ -339,6 +371,12 @@ static int pre (int actor, const char *label, const char *prev, const char *exp,
 static void note_step (int t) {
 	const struct rt_op *o = rt_last (t);
 	if ((o->kind == OP_ST || o->kind == OP_LD) && o->addr && rt_stack_owner (o->addr) >= 0) S.nwrec[rt_stack_owner (o->addr)] = o->addr;
+	if (S.kind == K_NOTE && o->kind == OP_ST && o->addr && S.nwbase[t] == NULL && S.nwobjs[t] > 0) {
+		char fb[64];
+		rt_op_fn (o, fb, sizeof fb);
+		if (!strcmp (fb, "nsync_wait_n")) { S.nwbase[t] = (char *) o->addr - offsetof (struct nsync_waiter_s, waiting); S.nwheap[t] = rt_stack_owner (o->addr) < 0; S.nwrec[t] = o->addr; S.nwinit[t] = 0; }
+	}
+	if (S.kind == K_NOTE && o->kind == OP_ST && S.nwbase[t]) { char fb[64]; rt_op_fn (o, fb, sizeof fb); if (!strcmp (fb, "nsync_wait_n")) S.nwinit[t]++; }
 	if (S.kind == K_COUNTER && o->kind == OP_CAS && o->ok && o->addr == (void *) &S.c->value && S.nhist < 256) {
 		if ((long) o->b != (long) o->a + S.prog_delta[t]) rt_violation ("O-lin", "the counter went from %u to %u in an add of %d", o->a, o->b, S.prog_delta[t]);
 		S.hist[S.nhist++] = (int) o->b; S.expect[t] = (long) o->b;
